@@ -60,12 +60,170 @@ def gen_C01(seed, tier):
     return finish(g, out, samples, len(sigs))
 
 
+
+def all_ids(mb, g, k=2):
+    """body ids of every class: movable (incl. virtual intermediates), fixed"""
+    ids = list(range(1, mb.n_movable)) + mb.fixed_ids
+    g.r.shuffle(ids)
+    # always include a fixed body when there is one
+    pick = ids[:k]
+    if mb.fixed_ids and not any(i >= G.FIXED_DISC for i in pick):
+        pick.append(g.r.choice(mb.fixed_ids))
+    return pick
+
+
+def gen_generic(prefix, seed, tier, nq, nt, calls_fn, max_joints=5, fext_prob=0.0, poison_prob=0.5,
+                allow_custom=True):
+    g = G.Gen(seed)
+    out, samples, sigs = [], [], set()
+    n = nmodels(tier, nq, nt)
+    for i in range(n):
+        kind = G.KINDS[i % len(G.KINDS)]
+        if not allow_custom and kind.startswith("Custom"):
+            kind = "EulerXYZ"
+        if i % 3 == 0:
+            mb = G.random_model(g, max_joints=max_joints, forced_root=kind, allow_custom=allow_custom)
+        elif i % 3 == 1:
+            mb = G.random_model(g, max_joints=max_joints, forced_inner=kind, allow_custom=allow_custom)
+        else:
+            mb = G.random_model(g, max_joints=max_joints + 1, allow_custom=allow_custom)
+        body = mb.state_lines()
+        tag = "plain"
+        if g.r.random() < fext_prob:
+            body.append(mb.fext_line())
+            tag = "fext"
+        if g.r.random() < poison_prob:
+            body.append("poison %d" % g.r.randint(1, 10 ** 6))
+        calls = calls_fn(g, mb)
+        body += calls
+        cid = "%s%s_%d" % (prefix, tag, i)
+        G.emit_case(out, cid, mb, g, body)
+        if mb.n_movable >= 3 and mb.nv >= 2:
+            sigs.add(model_signature(mb))
+        if len(samples) < 3:
+            samples.append({"case": cid, "joints": [list(k) for k in mb.kinds], "dof": mb.nv,
+                            "calls": [c for c in calls if c.startswith("call")][:12]})
+    return finish(g, out, samples, len(sigs))
+
+
+def calls_C02(g, mb):
+    c = ["call FD", "call MINV 1", "call MINV 0"]
+    c += ["call FDL %d" % k for k in range(4)]
+    return c
+
+
+def gen_C02(seed, tier):
+    return gen_generic("c02", seed, tier, 54, 300, calls_C02, fext_prob=0.5)
+
+
+def calls_C03(g, mb):
+    c = ["call CRBA 1", "call NE", "call KE 1", "call ID", "call MINV 1"]
+    # flag cleared immediately after the documented update for the same state
+    c += ["call UKC 1", "call CRBA 0"]
+    return c
+
+
+def gen_C03(seed, tier):
+    return gen_generic("c03", seed, tier, 54, 300, calls_C03, fext_prob=0.5)
+
+
+def calls_C04(g, mb):
+    c = []
+    for bid in all_ids(mb, g, 3):
+        c.append("call B2B %d %s 1" % (bid, G.point(g)))
+        c.append("call BASE2B %d %s 1" % (bid, G.point(g)))
+        c.append("call ORI %d 1" % bid)
+    # flag cleared after UpdateKinematicsCustom(Q)
+    c.append("poison %d" % g.r.randint(1, 10 ** 6))
+    c.append("call UKC 1")
+    for bid in all_ids(mb, g, 2):
+        c.append("call B2B %d %s 0" % (bid, G.point(g)))
+        c.append("call ORI %d 0" % bid)
+    return c
+
+
+def gen_C04(seed, tier):
+    return gen_generic("c04", seed, tier, 66, 400, calls_C04)
+
+
+def calls_C05(g, mb):
+    c = []
+    for bid in all_ids(mb, g, 2):
+        c.append("call PJ %d %s 1 z" % (bid, G.point(g)))
+        c.append("call PJ6 %d %s 1 z" % (bid, G.point(g)))
+        c.append("call BSJ %d 1 z" % bid)
+    bid = all_ids(mb, g, 1)[0]
+    # garbage-initialised matrix: only the path columns may be overwritten
+    c.append("call PJ6 %d %s 1 g %d" % (bid, G.point(g), g.r.randint(1, 999)))
+    c.append("call UKC 1")
+    c.append("call BSJ %d 0 z" % bid)
+    return c
+
+
+def gen_C05(seed, tier):
+    return gen_generic("c05", seed, tier, 66, 400, calls_C05)
+
+
+def calls_C06(g, mb):
+    c = []
+    for bid in all_ids(mb, g, 2):
+        c.append("call PV %d %s 1" % (bid, G.point(g)))
+        c.append("call PV6 %d %s 1" % (bid, G.point(g)))
+        c.append("call PA %d %s 1" % (bid, G.point(g)))
+        c.append("call PA6 %d %s 1" % (bid, G.point(g)))
+    bid = all_ids(mb, g, 1)[0]
+    pt = G.point(g)
+    c.append("poison %d" % g.r.randint(1, 10 ** 6))
+    c.append("call UK")
+    c.append("call PA6 %d %s 0" % (bid, pt))
+    c.append("call PV6 %d %s 0" % (bid, pt))
+    c.append("poison %d" % g.r.randint(1, 10 ** 6))
+    c.append("call UKC 7")
+    c.append("call PA6 %d %s 0" % (bid, pt))
+    return c
+
+
+def gen_C06(seed, tier):
+    return gen_generic("c06", seed, tier, 66, 400, calls_C06)
+
+
+def calls_C12(g, mb):
+    n = G.frs(g.unit_vec())
+    p = G.point(g)
+    c = ["call COM 1", "call COM0 1", "call KE 1", "call PE 1", "call ZMP %s %s 1" % (n, p)]
+    c += ["poison %d" % g.r.randint(1, 10 ** 6), "call UKC 7", "call COM 0", "call ZMP %s %s 0" % (n, p)]
+    return c
+
+
+def gen_C12(seed, tier):
+    return gen_generic("c12", seed, tier, 66, 400, calls_C12)
+
+
+NOT_YET = {}
+
+COMMON_ASSUMPTIONS = ["double evaluation is compared with exact rational evaluation up to 1e-8*scale",
+                      "joint axes exactly unit over Q; Euler middle angles |cos| >= 1/4; masses, inertia eigenvalues in [1/4,4]"]
+RULE_MODELS = ("random trees from the grammar of tools/gen_cases.py (every joint kind forced at the root and below it in turn, fixed bodies on base / movable / fixed parents, emulated multi-DoF, floating base, custom joints), random rational state and gravity, workspace poisoned in about half of the cases; distinct = distinct (joint kind, position) sequences with >= 2 movable bodies and >= 2 DoF")
+
 PROPS = {
     "C01": {
         "gen": gen_C01,
-        "rule": "random trees from the grammar of tools/gen_cases.py (every joint kind forced at the root and below it in turn), random rational state, gravity, external forces on a random subset, workspace poisoned in half of the cases; distinct = distinct (joint kind, position) sequences with >= 2 movable bodies and >= 2 DoF",
+        "rule": RULE_MODELS + "; external forces on a random subset in half of the cases",
         "explanation": "theorems: code-shaped RNEA model = Newton-Euler specification (see RbdlProofs/Props/C01.lean); tie: InverseDynamics output vs exact model output (correspondence) and vs the first-principles jet specification (monitor)",
-        "assumptions": ["double evaluation is compared with exact rational evaluation up to 1e-8*scale",
-                        "joint axes exactly unit over Q; Euler middle angles |cos| >= 1/4"],
+        "assumptions": COMMON_ASSUMPTIONS,
     },
+    "C02": {"gen": gen_C02, "rule": RULE_MODELS + "; calls: ForwardDynamics, CalcMInvTimesTau (flag set / cleared), ForwardDynamicsLagrangian x 4 solvers",
+            "explanation": "certificate: inverse dynamics of the specification applied to the returned accelerations reproduces tau; H_spec * (M^-1 tau) = tau",
+            "assumptions": COMMON_ASSUMPTIONS},
+    "C03": {"gen": gen_C03, "rule": RULE_MODELS + "; calls: CompositeRigidBodyAlgorithm (flag set / cleared), NonlinearEffects, CalcKineticEnergy, InverseDynamics, CalcMInvTimesTau",
+            "explanation": "monitor: H = sum J^T M J from partial velocities of the jet specification; N = Newton-Euler at zero acceleration",
+            "assumptions": COMMON_ASSUMPTIONS},
+    "C04": {"gen": gen_C04, "rule": RULE_MODELS + "; body ids of every class (movable, virtual, fixed)", "explanation": "monitor: pose composition from the base outward",
+            "assumptions": COMMON_ASSUMPTIONS},
+    "C05": {"gen": gen_C05, "rule": RULE_MODELS + "; zero- and garbage-initialised Jacobians", "explanation": "monitor: columns = first-order jets of the pose at unit generalized velocities",
+            "assumptions": COMMON_ASSUMPTIONS},
+    "C06": {"gen": gen_C06, "rule": RULE_MODELS, "explanation": "monitor: first and second jets of point positions / orientation",
+            "assumptions": COMMON_ASSUMPTIONS},
+    "C12": {"gen": gen_C12, "rule": RULE_MODELS + "; random contact plane (unit normal, point off the origin)", "explanation": "monitor: definitions of mass, CoM, momentum, energies, ZMP on jets of the pose specification",
+            "assumptions": COMMON_ASSUMPTIONS},
 }
